@@ -66,7 +66,8 @@ def wfZFast (env : Env) (d : ElfDesc) : Bool :=
   decide (d.shoff + n * d.shentsize < 2 ^ 63) && decide (d.phoff + m * d.phentsize < 2 ^ 63) &&
   decide (n < 2 ^ 32) && decide (m < 2 ^ 32) &&
   (n == 0 || (decide (0 < d.shoff) && decide (d.shstrndx < n))) && (m == 0 || decide (0 < d.phoff)) &&
-  (match d.sections[d.shstrndx]? with
+  (d.shstrndx == 0 ||
+   match d.sections[d.shstrndx]? with
    | some st => d.sections.all fun s => decide (getNatD st.hdr "sh_offset" + s.nameOff < 2 ^ 63)
    | none => true) &&
   (List.range n).all (fun i => secOkZA env d a hs 4 i) &&
